@@ -482,7 +482,7 @@ func init() {
 			"the multicast peer is exercised with unicast datagrams on 127.0.0.1 (its AsyncRead/AsyncWrite paths are the same)",
 			"the bound is MaxCallbackDispatch callbacks plus the one dispatched by the poller, as the statement says",
 		},
-		NumCases: func(tier, build string) int { return vf.Tiered(tier, 300, 200000) },
+		NumCases: func(tier, build string) int { return vf.Tiered(tier, 1500, 200000) },
 		Floor:    func(tier string) int { return vf.Tiered(tier, 50, 300) },
 		Run:      runC14,
 	})
